@@ -7,7 +7,8 @@ EXTENDS MechMatch, TLC, Json
 
 CONSTANTS MaxLen,     \* longest arm list
           FibMax,     \* largest n for the tree-recursive fibonacci
-          CountBig    \* deepest tail recursion evaluated by the model
+          CountBig,   \* deepest tail recursion evaluated by the model
+          Big         \* TRUE: larger argument domains (thorough tier)
 
 VARIABLE cs
 
@@ -58,10 +59,13 @@ Forms(f) == IF f = "pair" THEN {"fn", "fn1t", "match"} ELSE {"fn", "match"}
 Ids(f, form) == IF form = "match" THEN MatchIds(f) ELSE FnIds(f)
 
 Dom(f) ==
-  CASE f = "scalar" -> <<NV(0), NV(1), NV(2), NV(3)>>
-    [] f = "pair"   -> <<TV(<<0,0>>), TV(<<0,1>>), TV(<<0,2>>), TV(<<1,0>>), TV(<<1,1>>), TV(<<1,2>>), TV(<<2,0>>), TV(<<2,1>>), TV(<<2,2>>)>>
+  CASE f = "scalar" -> IF Big THEN [i \in 1..6 |-> NV(i - 1)] ELSE <<NV(0), NV(1), NV(2), NV(3)>>
+    [] f = "pair"   -> IF Big THEN [i \in 1..16 |-> TV(<<(i - 1) \div 4, (i - 1) % 4>>)]
+                       ELSE <<TV(<<0,0>>), TV(<<0,1>>), TV(<<0,2>>), TV(<<1,0>>), TV(<<1,1>>), TV(<<1,2>>), TV(<<2,0>>), TV(<<2,1>>), TV(<<2,2>>)>>
     [] f = "arr"    -> <<AV(<<0>>), AV(<<2>>), AV(<<0,1>>), AV(<<1,0>>), AV(<<2,2>>), AV(<<0,1,2>>), AV(<<2,1,0>>), AV(<<1,2,1>>)>>
+                       \o (IF Big THEN <<AV(<<1>>), AV(<<0,0>>), AV(<<3,1>>), AV(<<0,3,0,1>>), AV(<<3,2,1,0>>)>> ELSE <<>>)
     [] f = "enum"   -> <<EV("circle", <<0>>), EV("circle", <<2>>), EV("square", <<1>>), EV("dot", <<>>)>>
+                       \o (IF Big THEN <<EV("circle", <<1>>), EV("square", <<0>>)>> ELSE <<>>)
 Variants == {"circle", "square", "dot"}
 
 (* ------------------------------------------------------------ recurrences *)
@@ -196,7 +200,9 @@ NonOverlapPerm == IsList =>
   => \A val \in D : \A i \in 1..Len(arms) : Applies(arms[i], val) => Sel(arms, val) = <<arms[i]>>
 
 (* the function definitions of the recurrences, interpreted arm by arm, compute the recurrences *)
-RecLaw == IsRec => CallVal(RecDef(cs.name), [i \in 1..Len(RecCall(cs.name, cs.args)) |-> NV(RecCall(cs.name, cs.args)[i])]) = RecMath(cs.name, cs.args)
+NVs(a) == CASE Len(a) = 1 -> <<NV(a[1])>> [] Len(a) = 2 -> <<NV(a[1]), NV(a[2])>> [] Len(a) = 3 -> <<NV(a[1]), NV(a[2]), NV(a[3])>>
+(* (the arm-by-arm interpretation is evaluated up to depth 1000; deeper, only the recurrence itself) *)
+RecLaw == (IsRec /\ (cs.name = "count" => cs.args[1] <= 1000)) => CallVal(RecDef(cs.name), NVs(RecCall(cs.name, cs.args))) = RecMath(cs.name, cs.args)
 
 (* oracle sanity of the recurrences themselves *)
 RecSanity == IsRec =>
@@ -210,6 +216,14 @@ RecSanity == IsRec =>
        LET g == Gcd(a[1], a[2]) IN
        /\ a[1] % g = 0 /\ a[2] % g = 0
        /\ \A d \in 1..12 : (a[1] % d = 0 /\ a[2] % d = 0) => g % d = 0
+
+(* the generated families stay inside the part of the semantics the property defines; the deliberate  *)
+(* deviations of match expressions named in MechMatch (boolean pattern expressions act as guards,   *)
+(* arm kinds must agree, sources containing the empty value consult the wildcard arm first) are not *)
+(* reachable: every source is a u64 / tuple / vector / variant value and every body has kind u64     *)
+InScope == IsList =>
+  /\ \A q \in 1..Len(Dom(cs.fam)) : Dom(cs.fam)[q].t \in {"n", "tup", "arr", "enum"}
+  /\ \A i \in 1..Len(ArmsOf(cs)) : ArmsOf(cs)[i].body.op \in {"lit", "var", "add"}
 
 Emit == Done => PrintT(<<"CASE", ToJson(CaseJson(cs))>>)
 =============================================================================
